@@ -10,7 +10,7 @@ mkdir -p "$wt/_o"
 run_one() {
   p=$1; wt=$2
   mkdir -p "$wt/_v_$p"; cp /verif/known_findings.json "$wt/_v_$p/"
-  out=$(cd /verif && DFS_NO_EVIDENCE=1 ./bin/dfscheck -property $p -repo "$wt" -verif "$wt/_v_$p" 2>&1); rc=$?
+  out=$(cd /verif && DFS_NO_EVIDENCE=1 ${DFSBIN:-./bin/dfscheck} -property $p -repo "$wt" -verif "$wt/_v_$p" 2>&1); rc=$?
   if [ $rc -ne 0 ]; then
     { echo "== $p exit=$rc"; echo "$out" | grep -v "^      via\|KNOWN-FINDING\|^VIOLATION" | grep "violated in\|undecided in\|cannot analyse\|panic\|floor\|^    " | head -8 | cut -c1-260 | sed "s|$wt/||g"; } > "$wt/_o/$p"
   fi
